@@ -145,6 +145,59 @@ Fixpoint any_case (subject : variant) (cs : list case_expr) (st : env) (p : pos)
       end
   end.
 
+(** DATA: the items are evaluated left to right and appended to the queue *)
+Fixpoint eval_items (items : list expr) (e : env) : (list variant * env) + (verr * pos) :=
+  match items with
+  | [] => inl ([], e)
+  | x :: t =>
+      match eval x e with
+      | EErr err q => inr (err, q)
+      | EVal v e' =>
+          match eval_items t e' with
+          | inl (vs, e'') => inl (v :: vs, e'')
+          | inr r => inr r
+          end
+      end
+  end.
+
+(** READ: the targets are looked at in order (which creates them), then one item per target is
+    taken from the queue and converted to the type of the target's current value; only when all
+    succeeded are the values stored, in order. An error (Out of DATA, Type mismatch, Overflow)
+    stores nothing; the items taken so far are gone *)
+Fixpoint collect (targets : list (name * pos)) (e : env) : list (variant * name) * env :=
+  match targets with
+  | [] => ([], e)
+  | (n, _) :: t =>
+      let e' := touch e n in
+      let '(fr, e'') := collect t e' in
+      ((lookup e' n, n) :: fr, e'')
+  end.
+
+Fixpoint read_vals (quals : list qual) (d : list variant) : (list variant * list variant) + (verr * list variant) :=
+  match quals with
+  | [] => inl ([], d)
+  | q :: t =>
+      match d with
+      | [] => inr (EOutOfData, d)
+      | w :: d' =>
+          match cast w q with
+          | Err x => inr (x, d')
+          | Ok w' =>
+              match read_vals t d' with
+              | inl (ws, d'') => inl (w' :: ws, d'')
+              | inr r => inr r
+              end
+          end
+      end
+  end.
+
+Fixpoint store_all (names : list name) (ws : list variant) (e : env) : env :=
+  match names, ws with
+  | n :: t, w :: ws' => store_all t ws' (assign (touch e n) n w)
+  | _, _ => e
+  end.
+
+
 Definition cond (e : expr) (s : state) (p : pos) : (bool * state) + outcome :=
   match eval e (vars s) with
   | EVal v st' => match truthy v with
@@ -322,6 +375,17 @@ Fixpoint exec (fuel : nat) (s : stmt) (st : state) {struct fuel} : outcome :=
                      end
                  end) cases (mk_state st0 (screen st))
           end
+      | SData p items =>
+          match eval_items items (vars st) with
+          | inr (x, q) => Failed x q st
+          | inl (vs, e') => Done (mk_state e' (mk_io (scr (screen st)) (dat (screen st) ++ vs)))
+          end
+      | SRead p targets =>
+          let '(fr, e1) := collect targets (vars st) in
+          match read_vals (map (fun x => tag (fst x)) fr) (dat (screen st)) with
+          | inr (x, d') => Failed x p (mk_state e1 (mk_io (scr (screen st)) d'))
+          | inl (ws, d') => Done (mk_state (store_all (map snd fr) ws e1) (mk_io (scr (screen st)) d'))
+          end
       end
   end.
 
@@ -329,6 +393,18 @@ Fixpoint exec_program (fuel : nat) (p : program) (st : state) : outcome :=
   match p with
   | [] => Done st
   | s :: t => match exec fuel s st with Done st' => exec_program fuel t st' | o => o end
+  end.
+
+(** the implicitly declared variables are created, with the default value of their type, in the
+    order in which the checker found them *)
+Definition declare (dims : list (name * pos)) (e : env) : env :=
+  fold_left (fun e d => assign (touch e (fst d)) (fst d) (default_of (snd (fst d)))) dims e.
+
+(** a main program: its DATA statements first, then the implicit declarations, then the other statements *)
+Definition exec_main (fuel : nat) (dims : list (name * pos)) (p : program) : outcome :=
+  match exec_program fuel (filter is_data p) (mk_state [] io0) with
+  | Done sd => exec_program fuel (filter (fun s => negb (is_data s)) p) (mk_state (declare dims (vars sd)) (screen sd))
+  | o => o
   end.
 
 End WithNumberText.
